@@ -9,6 +9,9 @@
 (*   kw    BOOLEAN: **kw present                                                              *)
 (*   pdef  number of positional parameters with a default (the LAST pdef of a1..,b1..)        *)
 (*   kdef  set of keyword-only parameters with a default                                      *)
+(*   pgen  generation of the positional default VALUES: 0 = the values written in the `def`,  *)
+(*         g > 0 = the values of the g-th re-assignment of the history (f.__defaults__ = ...) *)
+(*   kgen  the same for the keyword-only default values (f.__kwdefaults__ = {...})            *)
 (* i.e.   def f(a1, a2, /, b1, b2=D, *va, k1, k2=D, **kw)                                     *)
 (* Call  c = [npos, kws]: npos positional actuals, kws the set of keyword names used.         *)
 (*                                                                                            *)
@@ -26,7 +29,7 @@ Min2(a, b) == IF a < b THEN a ELSE b
 
 Signatures(N) ==
   {s \in [po : 0 .. N, pk : 0 .. N, va : BOOLEAN, ko : 0 .. N, kw : BOOLEAN,
-          pdef : 0 .. 2 * N, kdef : SUBSET ToSet(KoNames)] :
+          pdef : 0 .. 2 * N, kdef : SUBSET ToSet(KoNames), pgen : {0}, kgen : {0}] :
      /\ s.pdef <= s.po + s.pk
      /\ s.kdef \subseteq ToSet(SubSeq(KoNames, 1, s.ko))}
 
@@ -118,10 +121,59 @@ BindLaws(s, c) ==
     /\ (~s.va => c.npos <= NPosParams(s)) /\ (~s.kw => c.kws \subseteq KwTargets(s))
 
 -----------------------------------------------------------------------------
+(* Re-assignment of the defaults AFTER the definition (a history: define, call*, re-assign,   *)
+(* call*, ...).  CPython binds every call against the defaults the function object has AT THE *)
+(* TIME OF THE CALL:                                                                          *)
+(*   f.__defaults__ = (v1, .., vk)    the LAST k positional parameters have defaults v1..vk   *)
+(*                                    (k = 0: none has), whatever the `def` said              *)
+(*   f.__kwdefaults__ = {n: v, ..}    exactly the keyword-only parameters n have defaults     *)
+(* A re-assignment r = [attr, pdef, kdef]: attr = "pos" uses pdef (= k), attr = "kw" uses     *)
+(* kdef.  The g-th re-assignment of a history installs values of generation g.                *)
+Redefs(s) ==
+  [attr : {"pos"}, pdef : 0 .. NPosParams(s), kdef : {{}}]
+  \cup (IF s.ko > 0 THEN [attr : {"kw"}, pdef : {0}, kdef : SUBSET KoSet(s)] ELSE {})
+Redefine(s, r, g) ==
+  IF r.attr = "pos" THEN [s EXCEPT !.pdef = r.pdef, !.pgen = g]
+                    ELSE [s EXCEPT !.kdef = r.kdef, !.kgen = g]
+(* the signature in force after the first m re-assignments of history h *)
+Stage(s, h, m) ==
+  LET F[j \in 0 .. m] == IF j = 0 THEN s ELSE Redefine(F[j - 1], h[j], j) IN F[m]
+
+HasDefault(s, n) ==
+  \/ n \in s.kdef
+  \/ \E i \in 1 .. NPosParams(s) : PosParams(s)[i] = n /\ HasPosDefault(s, i)
+Lost(p, s) == {n \in ParamNames(s) : HasDefault(p, n) /\ ~HasDefault(s, n)}   \* defaults p has, s has not
+Supplied(s, c) == FilledByPos(s, c) \cup (c.kws \cap KwTargets(s))
+UsesDefault(s, c) ==
+  LET b == Bind(s, c) IN b.err = "none" /\ \E n \in ParamNames(s) : b.slots[n][1] = "default"
+
+(* Laws of a re-assignment p -> s (same parameters, other defaults) for any call c *)
+RedefLaws(p, s, c) ==
+  LET kp == ErrKind(p, c)
+      ks == ErrKind(s, c)
+      early == {"keyword", "too_many"} IN
+  \* the keyword and surplus checks do not look at defaults
+  /\ (kp \in early \/ ks \in early) => kp = ks
+  \* a call that bound before fails afterwards iff it relies on a default that was removed
+  /\ kp = "none" => ((ks # "none") <=> (Lost(p, s) \ Supplied(s, c)) # {})
+  \* a call that lacked a parameter binds afterwards only through a default that was added
+  /\ (kp \in {"missing", "missing_kwonly"} /\ ks = "none") => (Lost(s, p) \ Supplied(s, c)) # {}
+  \* when it binds before and after, every parameter has the same source (the default VALUES differ)
+  /\ (kp = "none" /\ ks = "none") =>
+       LET a == Bind(p, c)
+           b == Bind(s, c) IN
+       a.slots = b.slots /\ a.va = b.va /\ a.kw = b.kw
+
+-----------------------------------------------------------------------------
 (* Marker classes of the rendered programs: positional actual i is an instance of class P<i>, *)
-(* keyword actual n of class K_<n>, the default of parameter n of class D_<n>.                *)
+(* keyword actual n of class K_<n>, the default of parameter n of class D_<n> (the value in   *)
+(* the `def`) or D<g>_<n> (the value installed by the g-th re-assignment).                    *)
 Marker(src) ==
   CASE src[1] = "pos" -> "P" \o ToString(src[2])
     [] src[1] = "kw" -> "K_" \o src[2]
     [] src[1] = "default" -> "D_" \o src[2]
+DefClass(s, n) ==
+  LET g == IF n \in KoSet(s) THEN s.kgen ELSE s.pgen IN
+  IF g = 0 THEN "D_" \o n ELSE "D" \o ToString(g) \o "_" \o n
+MarkerIn(s, src) == IF src[1] = "default" THEN DefClass(s, src[2]) ELSE Marker(src)
 =============================================================================
